@@ -210,6 +210,7 @@ func (node *mastNode) store(
 	cache NodeCache,
 	marshal func(interface{}) ([]byte, error),
 	storeQ chan func() error,
+	commit *[]func(),
 ) (string, error) {
 	if !node.dirty {
 		if debugMutation && node.expected != nil {
@@ -235,6 +236,11 @@ func (node *mastNode) store(
 		}
 	}
 
+	// The node is marshaled from a copy of its links in which in-memory children
+	// are replaced by their hashes. The node itself keeps its children and stays
+	// dirty until every write of this flush has succeeded (see commit below):
+	// if a write fails the tree is unchanged and a later flush writes again.
+	links := node.Link
 	linkCount := 0
 	for i, il := range node.Link {
 		if il == nil {
@@ -245,16 +251,20 @@ func (node *mastNode) store(
 		case string:
 			break
 		case *mastNode:
-			newLink, err := l.store(ctx, persist, cache, marshal, storeQ)
+			newLink, err := l.store(ctx, persist, cache, marshal, storeQ, commit)
 			if err != nil {
 				return "", fmt.Errorf("flush: %w", err)
 			}
-			node.Link[i] = newLink
+			if &links[0] == &node.Link[0] {
+				links = append(make([]interface{}, 0, cap(node.Link)), node.Link...)
+			}
+			links[i] = newLink
 		default:
 			return "", fmt.Errorf("don't know how to flush link of type %T", l)
 		}
 	}
 	trimmed := *node
+	trimmed.Link = links
 	if linkCount == 0 {
 		trimmed.Link = nil
 	}
@@ -275,9 +285,6 @@ func (node *mastNode) store(
 		if err != nil {
 			return fmt.Errorf("persist store: %w", err)
 		}
-		if cache != nil {
-			cache.Add(cacheKey, node)
-		}
 		return nil
 	}
 	if node.dirty && node.source != nil && *node.source != hash {
@@ -286,11 +293,18 @@ func (node *mastNode) store(
 		panic(fmt.Errorf("whoa, somebody modified %v==>%v after loading (keys were %v, became %v)",
 			*node.source, hash, node.expected.Key, node.Key))
 	}
-	node.dirty = false
-	if debugMutation {
-		node.expected = node.xcopy()
-	}
-	node.source = &hash
-	node.shared = true
+	// run by flush once all writes have completed successfully
+	*commit = append(*commit, func() {
+		node.Link = links
+		node.dirty = false
+		if debugMutation {
+			node.expected = node.xcopy()
+		}
+		node.source = &hash
+		node.shared = true
+		if cache != nil {
+			cache.Add(cacheKey, node)
+		}
+	})
 	return hash, nil
 }
